@@ -600,33 +600,101 @@ for _k, _nm in ((0, "entry"), (1, "exit")):
     )
 
 
-# ---- _makeCursiveStatements#summary: the same facts WITHOUT the ghost (usable by callers) -----------------------------------------------------
+# ---- _makeCursiveStatements#summary: ghost-free postconditions, usable by callers (`_makeCursiveLookup`) -------------------------------------------
+# Ghost w: the position of the glyph recorded last (a ground witness for "some glyph has a side" instead of an existential).
 _ANY_SIDE = "(" + _present("glyphs[a]", "entry") + " or " + _present("glyphs[a]", "exit") + ")"
-# (WORK IN PROGRESS like #entry / #exit: one invariant step needs alpha-equal sub-formulas to be recognised, notes/C06.requests.md R16 (b))
+_KEY_KINDS = f"all(allocated({_KS}[p]) and {_KS}[p].kind == 'GlyphName' for p in range(len({_KS})))"
 contract(
     MCS,
     name="summary",
-    **{**{k: v for k, v in MCS_COMMON.items() if k != "hints"}, "props": []},
+    **{**{k: v for k, v in MCS_COMMON.items() if k not in ("hints", "ghost_vars", "ghost", "locals")}},
+    locals={**MCS_LOCALS, "w": INT},
+    ghost_vars={"K0": MCS_COMMON["ghost_vars"]["K0"], "w": (INT, "0")},
+    ghost={MCS_PUT: ["w = i"], MCS_GET: ["K0 = list(cursiveAnchors) + []"]},
     ensures={
-        "record-kinds": "all(result[k].kind == 'CursivePosStatement' and result[k].glyphclass.kind == 'GlyphName' for k in range(len(result)))",
-        "record-glyph-is-a-given-glyph-with-a-side": "all(any(result[k].glyphclass.glyph == glyphs[a].name and " + _ANY_SIDE + " for a in range(len(glyphs))) for k in range(len(result)))",
-        "every-given-glyph-with-a-side-has-a-record": "all(implies(" + _ANY_SIDE + ", any(result[k].glyphclass.glyph == glyphs[a].name for k in range(len(result)))) for a in range(len(glyphs)))",
+        "record-kinds": "all(allocated(result[k]) and result[k].kind == 'CursivePosStatement' and result[k].glyphclass.kind == 'GlyphName' for k in range(len(result)))",
         "empty-iff-no-glyph-has-a-side": "iff(len(result) == 0, not any(" + _ANY_SIDE + " for a in range(len(glyphs))))",
-        "records-allocated": "all(allocated(result[k]) for k in range(len(result)))",
     },
     canaries={"never-empty": "len(result) > 0"},
-    **{"hints": {MCS_PUT: MCS_COMMON["hints"][MCS_PUT] + [
+    hints={MCS_PUT: [
+        f"len({_KS}) == len(K0) + 1",
+        f"all({_KS}[p] == K0[p] for p in range(len(K0)))",
+        f"{_KS}[len(K0)].kind == 'GlyphName' and allocated({_KS}[len(K0)])",
         _ANY_SIDE.replace("glyphs[a]", "glyph"),
-        "all(" + _ANY_SIDE.replace("glyphs[a]", "glyphs[s0[p]]") + " for p in range(len(s0)))",
-        "all(implies(p == len(K0), " + _ANY_SIDE.replace("glyphs[a]", "glyphs[src[p]]") + ") for p in range(len(src)))",
-        "all(implies(p < len(K0), " + _ANY_SIDE.replace("glyphs[a]", "glyphs[src[p]]") + ") for p in range(len(src)))",
-    ]}},
+    ]},
     loops={
         MCS_LOOP1: Loop(index="i", invariants={
-            **_INV1,
-            "side": f"all(" + _ANY_SIDE.replace("glyphs[a]", "glyphs[src[p]]") + f" for p in range(len(src)))",
-            "complete": "all(implies(" + _ANY_SIDE + ", any(src[p] == a for p in range(len(src)))) for a in range(i))",
+            "old-keys": _OLD_KEYS,
+            "len": f"len(cursiveAnchors) == len({_KS})",
+            "key-kinds": _KEY_KINDS,
+            "witness": "implies(len(cursiveAnchors) > 0, 0 <= w and w < i and " + _ANY_SIDE.replace("glyphs[a]", "glyphs[w]") + ")",
+            "none-so-far": "implies(len(cursiveAnchors) == 0, all(not " + _ANY_SIDE + " for a in range(i)))",
         }),
-        MCS_LOOP2: Loop(index="t", seq="KK", invariants={**_INV2, "len1": _INV1["len"]}),
+        MCS_LOOP2: Loop(index="t", seq="KK", invariants={
+            "len": _INV2["len"], "key-kinds": _KEY_KINDS,
+            "shape": "all(allocated(statements[u]) and statements[u].kind == 'CursivePosStatement' and statements[u].glyphclass == KK[u] for u in range(t))",
+        }),
     },
 )
+
+
+def _mcs_build(d):
+    w = curs_writer(d)
+    glyphs = [g for g in (_exported_copy(w, nm, d["shift"]) for nm in _CURS_GLYPHS if nm not in d["skip"]) if g is not None]
+    return {"self": w, "glyphs": glyphs, "entryName": d["pair"][0], "exitName": d["pair"][1]}
+
+
+CONTRACTS[MCS + "#summary"].runtime = Runtime(curs_cases, _mcs_build, call=lambda fn, a: M.P(fn(a["self"], a["glyphs"], a["entryName"], a["exitName"])))
+
+# ---- _makeCursiveLookup against the contract of the REAL _makeCursiveStatements (#summary) ----------------------------------------------------------
+# (the first-wave contract in contracts/c18.py went through the opaque stand-in `cursive_statements`; this one replaces it)
+from .c18 import _makeLookupFlag_glue  # noqa: E402
+
+MCL = "ufo2ft.featureWriters.cursFeatureWriter:CursFeatureWriter._makeCursiveLookup"
+_LTR = "(entryName.endswith('.LTR') or (not entryName.endswith('.RTL') and direction is not None and direction == 'LTR'))"
+contract(
+    MCL,
+    name="c18_CW",
+    props=["C18"],
+    params={"self": Ref("c18_CW"), "glyphs": List(Ref("c18_UGlyph")), "entryName": STR, "exitName": STR, "direction": Opt(STR)},
+    returns=Opt(Ref(NODE)),
+    globals={"ast": M.fea_shim(makeLookupFlag=_makeLookupFlag_glue), "isinstance": M.ISINSTANCE},
+    requires=["not self.context.isVariable"],
+    calls={MCS: MCS + "#summary"},
+    seq_bridge=True,  # (positional facts of `[flag] + statements` with triggers; the engine's vacuity probe decides for such contracts)
+    modifies=["c17_Node.kind", "c17_Node.glyph", "c17_Node.glyphclass", "c17_Node.entryAnchor", "c17_Node.exitAnchor", "c17_Node.statements", "c17_Node.value", "c17_Node.name"],
+    ensures={
+        # no lookup iff no given glyph has an entry / exit anchor of these names (own anchors, else the font's glyph of that name)
+        "none-iff-no-glyph-has-a-side": "iff(result is None, not any(" + _ANY_SIDE + " for a in range(len(glyphs))))",
+        # RightToLeft (bit 1) is CLEARED exactly for an .LTR suffix, or no direction suffix and a lookup built for LTR glyphs; IgnoreMarks (8) always set
+        "flag": f"implies(result is not None, result.kind == 'LookupBlock' and result.statements[0].kind == 'LookupFlagStatement'"
+        f" and result.statements[0].value == ite({_LTR}, 8, 9))",
+        "at-least-one-record": "implies(result is not None, len(result.statements) >= 2)",
+        "records": "implies(result is not None, all(result.statements[k].kind == 'CursivePosStatement' for k in range(1, len(result.statements))))",
+    },
+    hints={"lookup.statements.extend(statements)": [
+        "len(lookup.statements) == 1 + len(statements)",
+        "all(lookup.statements[k + 1] == statements[k] for k in range(len(statements)))",
+        "all(lookup.statements[k].kind == 'CursivePosStatement' for k in range(1, len(lookup.statements)))",
+    ]},
+    canaries={"always-rtl": "implies(result is not None, result.statements[0].value == 9)"},
+)
+
+
+def _mcl_cases(rng, n):
+    from .c18 import _lookup_cases
+
+    fixed = [{"fixed": c} for c in _lookup_cases(rng, n)]
+    rnd = [{**c, "direction": rng.choice([None, "LTR", "RTL"])} for c in curs_cases(rng, max(0, n - len(fixed)))]
+    return (fixed + rnd)[:n]
+
+
+def _mcl_build(d):
+    if "fixed" in d:
+        from .c18 import _lookup_build
+
+        return _lookup_build(d["fixed"])
+    return {**_mcs_build(d), "direction": d["direction"]}
+
+
+CONTRACTS[MCL + "#c18_CW"].runtime = Runtime(_mcl_cases, _mcl_build, call=lambda fn, a: M.P(fn(a["self"], a["glyphs"], a["entryName"], a["exitName"], direction=a["direction"])))
